@@ -43,3 +43,10 @@ class MarkerA(_Marker):
 
 class MarkerB(_Marker):
     MARK = "B"
+
+
+class StripComment(Plugin):
+    """Returns an empty (falsy) file comment: a later plugin must see exactly that, and the file must start without a header."""
+
+    def get_file_comment(self, comment, code, source=None):
+        return ""
